@@ -139,6 +139,8 @@ BadVariants(s) ==
   CASE s.cls \in {"binarith", "mov"} /\ s.src.k = "imm" -> {[s EXCEPT !.src = x] : x \in OutOfRange(s.src, s.w, TRUE)}
     [] s.cls = "logic" /\ s.src.k = "imm" -> {[s EXCEPT !.src = x] : x \in OutOfRange(s.src, s.w, FALSE)}
     [] s.cls = "shift" /\ s.cnt.k = "imm" -> {[s EXCEPT !.cnt = [k |-> "imm", v |-> 256]], [s EXCEPT !.cnt = [k |-> "imm", v |-> 65535]]}
+    \* the count in a register other than CL (for every destination form: each has its own production)
+    [] s.cls = "shift" /\ s.cnt.k = "cl" -> {[s EXCEPT !.cnt = [k |-> "reg", r |-> x]] : x \in {"dl", "ch", "al", "cx"}}
     [] s.cls = "int" -> {[s EXCEPT !.n = 256], [s EXCEPT !.n = 5]}
     [] OTHER -> {}
 \* displacement / direct address out of range in any memory operand
